@@ -57,6 +57,53 @@ def produce(doc, fmt, dest, scratch):
         return fh.read()
 
 
+def positioned_streams():
+    """A stream source is read from where it stands: two documents written one after the other into one text or binary
+    stream, the stream put back to where the second one starts — deserialize(source=stream, format) and prov.read(stream),
+    with and without format, must give the second document alone (and afterwards the stream stands at its end)."""
+    import prov
+    import prov.model as M
+    EXU = "http://example.org/"
+    fails = []
+    n = 0
+
+    def mk(tag, k):
+        d = M.ProvDocument()
+        d.add_namespace("ex", EXU)
+        for i in range(k):
+            d.entity("ex:%s%d" % (tag, i), {"ex:k": "é%d" % i})
+        d.activity("ex:%sact" % tag)
+        d.wasGeneratedBy("ex:%s0" % tag, "ex:%sact" % tag)
+        return d
+    a, b = mk("first", 3), mk("second", 2)
+    for fmt in ("json", "xml", "rdf"):
+        want = content_of(b.unified() if fmt == "rdf" else b, fmt)
+        for kind in ("text", "binary"):
+            for how in ("deserialize", "read-format", "read"):
+                n += 1
+                st = io.StringIO() if kind == "text" else io.BytesIO()
+                a.serialize(st, format=fmt)
+                pos = st.tell()
+                b.serialize(st, format=fmt)
+                st.seek(pos)
+                try:
+                    if how == "deserialize":
+                        d2 = M.ProvDocument.deserialize(source=st, format=fmt)
+                    elif how == "read-format":
+                        d2 = prov.read(st, format=fmt)
+                    else:
+                        d2 = prov.read(st)
+                    got = content_of(d2, fmt)
+                except Exception as e:
+                    fails.append({"what": "reading a stream from its current position raised", "format": fmt, "stream": kind, "call": how,
+                                  "exc": repr(e)[:200]})
+                    continue
+                if got != want:
+                    fails.append({"what": "a stream source was not read from its current position: another document came back",
+                                  "format": fmt, "stream": kind, "call": how})
+    return n, fails
+
+
 def dispatch_correspondence(scratch):
     """the model of the text/bytes dispatch (IODispatch.v) against the implementation: for every format x destination
     kind x source kind, whether a str or a bytes is written and what the format's parser is handed — observed from
@@ -270,6 +317,14 @@ def run(tier, seed, log, model_runs=True, enlarged=False):
     finally:
         shutil.rmtree(scratch, ignore_errors=True)
     log("ran %d serialize/deserialize/read calls on %d documents in %.1fs" % (total, ndocs + nbig + 1, time.time() - t0))
+    try:
+        npos, pfails = positioned_streams()
+    except Exception:
+        npos, pfails = 0, []
+        violations.append({"kind": "harness-error", "what": "harness error", "detail": traceback.format_exc()[-1500:]})
+    log("positioned streams: %d cases, %d failures" % (npos, len(pfails)))
+    for f in pfails[:3]:
+        violations.append({"kind": "failing-input", "failure": f, "provn": "two documents written one after the other into one stream"})
     ndisp, dbad = 0, []
     if model_runs:
         scratch2 = tempfile.mkdtemp(prefix="c16d_")
